@@ -136,9 +136,13 @@ PLANS = {
                 "plain executor x 6 channel kinds, 1-3 listeners, optionally one listener dropped unconsumed beforehand), concurrency limit 1-4, 0-48 events whose per-event behaviour is drawn from {sync, ready future, "
                 "future with 1-3 yields, future sleeping, failing}; after the sends close(Duration::ZERO) is awaited and the closing task itself snapshots: every accepted event finished by every entitled stream, "
                 "running_streams_count == 0, channel not open; workload `storm`: batches of 200 small Unis (0-3 events, half of them with cancel_all_streams() right before the close, a third with a second concurrent close) "
-                "opened and closed back to back on one multi-thread runtime, same snapshot oracle -- the closing task's wake-ups race streams that are ending and being dropped on other workers; distinct = distinct (behaviour sequence, config); non-trivial = at least one event",
-                [dict(flavor="fast", lane="free", secs=20), dict(flavor="asan", lane="free", secs=12, shards=8), dict(flavor="fast", lane="free", secs=8, args=["--set", "workload=storm"]), dict(flavor="asan", lane="free", secs=8, shards=8, args=["--set", "workload=storm"])],
-                [dict(flavor="fast", lane="free", secs=240), dict(flavor="checked", lane="free", secs=100), dict(flavor="asan", lane="free", secs=120), dict(flavor="fast", lane="free", secs=100, args=["--set", "workload=storm"]), dict(flavor="asan", lane="free", secs=100, args=["--set", "workload=storm"])], 1000, 10000,
+                "opened and closed back to back on one multi-thread runtime, same snapshot oracle -- the closing task's wake-ups race streams that are ending and being dropped on other workers; channel level (harness workload C07 with request=end_all, conductor + "
+                "free-running lanes): gracefully_end_all_streams(unbounded) issued by a requester thread against 1-4 streams driven by minimal executors (park on Pending) on every channel kind, with sends before and during the "
+                "request -- when it returns, every event accepted before the call has been yielded (Uni: by some stream, Multi: by every listener), every stream has answered end-of-stream, none is running, the channel is not open; distinct = distinct (behaviour sequence, config); non-trivial = at least one event",
+                [dict(flavor="fast", lane="free", secs=20), dict(flavor="asan", lane="free", secs=12, shards=8), dict(flavor="fast", lane="free", secs=8, args=["--set", "workload=storm"]), dict(flavor="asan", lane="free", secs=8, shards=8, args=["--set", "workload=storm"]),
+                 dict(flavor="fast", lane="ser", secs=8, workload="C07", args=["--set", "request=end_all"]), dict(flavor="fast", lane="free", secs=6, shards=8, workload="C07", args=["--set", "request=end_all"])],
+                [dict(flavor="fast", lane="free", secs=240), dict(flavor="checked", lane="free", secs=100), dict(flavor="asan", lane="free", secs=120), dict(flavor="fast", lane="free", secs=100, args=["--set", "workload=storm"]), dict(flavor="asan", lane="free", secs=100, args=["--set", "workload=storm"]),
+                 dict(flavor="fast", lane="ser", secs=120, workload="C07", args=["--set", "request=end_all"]), dict(flavor="fast", lane="free", secs=80, workload="C07", args=["--set", "request=end_all"]), dict(flavor="checked", lane="ser", secs=40, workload="C07", args=["--set", "request=end_all"])], 1000, 10000,
                 ["tokio, futures: black boxes", "a run that does not finish within the 60 s wall-clock watchdog is inconclusive, never a verdict",
                  "a process crash or AddressSanitizer report while pipelines are being closed is a violation (close() neither returned nor left the promised state)"]),
     "C11": plan("one evaluation = one item script (0-32, thorough 0-64 items over {ok, error, slow, slow-then-error}) pushed through one of the five StreamExecutor::spawn_* functions, with / without a futures timeout, "
@@ -225,7 +229,7 @@ META = {
     "C10": meta("seqmodel", "runtime monitoring: reference-model monitor over listener life-cycle histories (exhaustive for small MAX_STREAMS, random long histories so that every stream id is recycled many times)",
                 "Exhaustive enumeration of short listener life-cycle histories plus randomised long ones, each compared step by step with an exact sequential model.",
                 "DESIGN.md section 2, C10"),
-    "C06": meta("tokio+asan", "runtime monitoring: per-item started/finished ledger written by the pipeline itself, snapshot taken by the closing task right after close() returns (completion is monotone), on deterministic virtual-time and on multi-thread tokio runtimes; the same pipelines in an AddressSanitizer build (real tokio wakers racing the close path)",
+    "C06": meta("tokio+conductor+chaos+asan", "runtime monitoring: per-item started/finished ledger written by the pipeline itself, snapshot taken by the closing task right after close() returns (completion is monotone), on deterministic virtual-time and on multi-thread tokio runtimes; the same pipelines in an AddressSanitizer build (real tokio wakers racing the close path); channel-level gracefully_end_all_streams under the serialized scheduler with an exact delivered-before-return oracle over stamped yields",
                 "Randomised exploration of workloads x executor kinds x concurrency limits x runtimes with a monotone-completion oracle.",
                 "DESIGN.md section 2, C06"),
     "C11": meta("tokio", "runtime monitoring: per-item outcome ledger + in-flight gauge inside the item futures, compared with the executor's counters and error-callback invocations at the close callback",
